@@ -344,13 +344,13 @@ fn truncated_logs() -> Vec<Case> {
 
 pub fn run(ctx: &Ctx, rep: &mut Report) {
     engine::enumerate(ctx, rep, "log-truncated-at-every-byte", truncated_logs().into_iter(), check_case);
-    let cases = ctx.share(ctx.tier.pick(120_000, 6_000_000));
+    let cases = ctx.share(ctx.tier.pick(240_000, 6_000_000));
     engine::drive(ctx, rep, "random", case_strategy(), cases, check_case);
-    let cases = ctx.share(ctx.tier.pick(12_000, 800_000));
+    let cases = ctx.share(ctx.tier.pick(24_000, 800_000));
     engine::drive(ctx, rep, "long-streams", long_case_strategy(), cases, check_case);
-    let cases = ctx.share(ctx.tier.pick(12_000, 1_200_000));
+    let cases = ctx.share(ctx.tier.pick(24_000, 1_200_000));
     engine::drive(ctx, rep, "block-aligned-tails", aligned_case_strategy(), cases, check_case);
-    let cases = ctx.share(ctx.tier.pick(1_600, 100_000));
+    let cases = ctx.share(ctx.tier.pick(3_200, 100_000));
     engine::drive(ctx, rep, "large-records", large_case_strategy(), cases, check_case);
 }
 
